@@ -569,6 +569,58 @@ def ev_mut(case):
 POPS = ['pushv alpha,x', 'popv alpha,x', 'pushv beta,x', 'popv beta,x', 'pushv ,x', 'popv ,x', 'set', 'pushv alpha,x,y', 'popv alpha,y,x']
 
 
+SPOPS = ['pushv alpha,z', 'popv alpha,z', 'pushv ,z', 'popv ,z', 'setz', 'seti']
+
+
+def ev_pushv_str(case):
+    """the same with a symbol holding strings of changing length (and, in between, an integer): a stack keeps VALUES"""
+    seq = case['seq']
+    lines = ['\tcpu 8086', 'z\tset "first"']
+    stacks = {}
+    z = 'first'
+    err = False
+    probes = []
+    for i, op in enumerate(seq):
+        if op == 'setz':
+            z = 'value number %d %s' % (i, 'x' * (3 * i))
+            lines.append('z\tset "%s"' % z)
+        elif op == 'seti':
+            z = 40 + i
+            lines.append('z\tset %d' % z)
+        else:
+            lines.append('\t' + op)
+            kw, rest = op.split(' ')
+            st = rest.split(',')[0]
+            if kw == 'pushv':
+                stacks.setdefault(st, []).append(z)
+            else:
+                if not stacks.get(st):
+                    err = True
+                    break
+                z = stacks[st].pop()
+                if not stacks[st]:
+                    del stacks[st]
+        lines += ['\torg %d' % (0x100 + 64 * i), '\tdb z,255']
+        probes.append((0x100 + 64 * i, z))
+    o, p = asm('\n'.join(lines) + '\n')
+    ck = core.crashkind(o)
+    d = ' / '.join(seq)
+    if ck:
+        return core.R(False, ck, 'crash/pushv-string/' + ck, '%s on %s' % (ck, d))
+    if err:
+        if o.rc != 2:
+            return core.R(False, 'popv-empty', 'pushv/pop-from-empty-accepted', 'POPV from an empty stack accepted (rc=%s) on %s' % (o.rc, d))
+        return core.R(True, 'popv-empty-rejected')
+    if o.rc != 0 or p is None:
+        return core.R(False, 'rejected', 'pushv/rejected', 'rc=%s %s on %s' % (o.rc, (o.out + o.err)[-200:].decode('latin-1'), d))
+    w = words(p)
+    for a, ez in probes:
+        want = (ez.encode() if isinstance(ez, str) else bytes([ez])) + b'\xff'
+        if w.get(a) != want:
+            return core.R(False, 'pushv-value', 'pushv/string-value', 'after step at %x z = %r, model %r on %s' % (a, w.get(a), want, d))
+    return core.R(True, 'pushv-ok', states=['pvs:' + d])
+
+
 def ev_pushv(case):
     seq = case['seq']
     lines = ['\tcpu 8086', 'x\tset 1000', 'y\tset 2000']
@@ -673,6 +725,7 @@ def subspaces(tier):
     subs.append(('c:mutability<=%d' % nm, [{'k': 'mut', 'seq': list(s)} for k in range(1, nm + 1) for s in itertools.product(MOPS, repeat=k)]))
     npv = 4 if q else 5
     subs.append(('d:pushv-popv<=%d' % npv, ({'k': 'pv', 'seq': list(s)} for k in range(1, npv + 1) for s in itertools.product(POPS, repeat=k))))
+    subs.append(('d:pushv-popv-strings<=%d' % npv, ({'k': 'pvs', 'seq': list(s)} for k in range(1, npv + 1) for s in itertools.product(SPOPS, repeat=k))))
     subs.append(('e:case-sensitivity', list(case_cases())))
     return subs
 
@@ -693,4 +746,6 @@ def evaluate(case):
         return ev_mut(case)
     if k == 'pv':
         return ev_pushv(case)
+    if case['k'] == 'pvs':
+        return ev_pushv_str(case)
     return ev_case(case)
